@@ -9,6 +9,9 @@
       [C01_touch_oracle_complete], [C01_adjacent_oracle_sound], [C01_validity_oracle_sound];
     - the geometric core of snap rounding for ROUTED edges (the edges C02 produces):
       [C01_partial_routed_edge_close] and [C01_partial_sweep_lemma] / [C01_partial_sweep_pixels].
+    - on the class of C18, end to end (section at the end of this file): returned edges whose source edges are
+      farther than one pixel apart do not meet ([C01_partial_far_edges_do_not_meet]); two steps of one routed chain
+      do not cross ([C01_partial_same_chain_no_cross]);
     NOT proved: the global implication "valid input and every output edge is a routed edge => no proper
     crossing" (the Guibas-Marimont deformation argument: move every point towards the centre of its pixel
     and show that no vertex ever passes through an edge; the sweep lemma is its algebraic step, the
@@ -171,3 +174,101 @@ Proof.
   split; [apply lineIntersects_spec; vm_compute; reflexivity |].
   split; [apply lineIntersects_spec; vm_compute; reflexivity | vm_compute; reflexivity].
 Qed.
+
+(** * what follows ON THE CLASS OF C18 from what is proved (Snap/ProofsJoinC01.v) — PARTIAL, not the property.
+
+    On the class (no routed-and-cleaned ring visits a pixel centre at three positions, Properties/C18.v) every
+    returned edge is, up to direction, a step of the routed chain of ONE edge of the polygon
+    ([C18_snapPolygon_edges_are_routed_steps]) and lies within half a pixel of it ([C04_clause2_on_class]).
+    (P1) Two returned edges whose source edges are farther than one pixel apart (Chebyshev, all pairs of points)
+         have no common point at all.  So a crossing can only arise between edges routed from input edges that come
+         within one pixel of each other.
+    (P2) Two steps of the SAME routed chain never cross properly: the pixels are met in travel order, so the columns
+         and the rows of their centres are monotone along the chain, and two steps that follow each other in both
+         coordinates have no common interior point.
+    STILL MISSING for the property: two steps of DIFFERENT chains whose source edges come within one pixel of each
+    other (edges of the polygon meeting at a vertex, or passing close by) — the deformation argument proper. *)
+From Coq Require Import Lqa.
+From Texel Require Import Snap.ProofsBasics Snap.ProofsJoinC18 Snap.ProofsJoinC04b Snap.ProofsJoinC01.
+From Texel Require Snap.ProofsKmpLe2.
+
+(** [close_to H e s]: every point of the segment e is within H of a point of the segment s;
+    [farther_than D s t]: no point of s is within D of a point of t *)
+Theorem C01_partial_far_edges_do_not_meet : forall g P levels cfg res hs, 0 < gres g -> RootCovers g ->
+  (forall L, In L levels -> (L <= gdeep g)%nat) -> insertPolygon g P = Ok hs ->
+  (forall L idx r c, In L levels -> nth_error P idx = Some r ->
+     routedClean g (hotLevels g hs) L idx r = Ok c -> ProofsKmpLe2.le2 c) ->
+  snapPolygon g P levels cfg = Ok res ->
+  forall L ps e f, In (L, ps) res -> In e (edges ps) -> In f (edges ps) -> ExactMiddle g L ->
+  exists s t, In s (flat_map ring_edges P) /\ In t (flat_map ring_edges P) /\
+    (forall lam, 0 <= lam -> lam <= 1 -> exists u, 0 <= u /\ u <= 1 /\
+       ChebLe (halfSpan g L) (between (fst e) (snd e) lam) (segPt (fst s) (snd s) u))%Q /\
+    (forall mu, 0 <= mu -> mu <= 1 -> exists v, 0 <= v /\ v <= 1 /\
+       ChebLe (halfSpan g L) (between (fst f) (snd f) mu) (segPt (fst t) (snd t) v))%Q /\
+    ((forall u v, 0 <= u -> u <= 1 -> 0 <= v -> v <= 1 ->
+        ~ ChebLe (2 * halfSpan g L) (segPt (fst s) (snd s) u) (segPt (fst t) (snd t) v))%Q ->
+     ~ EdgesShare e f /\ ~ edge_cross e f).
+Proof. exact far_edges_do_not_meet. Qed.
+Print Assumptions C01_partial_far_edges_do_not_meet.
+
+(** the geometric step alone *)
+Theorem C01_partial_close_far_disjoint : forall (H : Q) (e f s t : pt * pt),
+  close_to H e s -> close_to H f t -> farther_than (2 * H) s t ->
+  ~ SegsShare (fst e) (snd e) (fst f) (snd f) /\ ~ proper_cross (fst e) (snd e) (fst f) (snd f).
+Proof. intros H e f s t He Hf Hfar. split; [exact (close_far_disjoint H e f s t He Hf Hfar) | exact (close_far_no_cross H e f s t He Hf Hfar)]. Qed.
+Print Assumptions C01_partial_close_far_disjoint.
+
+(** (P2) for an edge a b of the indexed polygon: a step (c1, c2) of its chain and any later step (c3, c4) — the next
+    one included — written in either direction, do not cross properly *)
+Theorem C01_partial_same_chain_no_cross : forall g P hs a b L l1 c1 c2 l2 c3 c4, 0 < gres g -> RootCovers g ->
+  insertPolygon g P = Ok hs -> In a (concat P) -> In b (concat P) -> (L <= gdeep g)%nat ->
+  snapClosestPoints g (hotLevels g hs) a b L = l1 ++ c1 :: c2 :: l2 -> In (c3, c4) (ProofsBasics.pairs (c2 :: l2)) ->
+  forall e f, (e = (c1, c2) \/ e = (c2, c1)) -> (f = (c3, c4) \/ f = (c4, c3)) -> ~ edge_cross e f.
+Proof. exact same_chain_no_cross. Qed.
+Print Assumptions C01_partial_same_chain_no_cross.
+
+(** its geometric step: [travel_le a b c c']: both coordinates of c' are not behind those of c in the direction from
+    a to b; three segments' end points in that order ⇒ the first and the last segment do not cross properly *)
+Theorem C01_partial_travel_no_cross : forall a b c1 c2 c3 c4,
+  travel_le a b c1 c2 -> travel_le a b c2 c3 -> travel_le a b c3 c4 -> ~ proper_cross c1 c2 c3 c4.
+Proof. exact travel_no_cross. Qed.
+Print Assumptions C01_partial_travel_no_cross.
+
+(** non-vacuity: the neck polygon (32 x 32 pixels of size 2; Properties/C18.v).  All hypotheses of P1 hold at the
+    levels 5, 3, 2; its bottom edge of the left block and the right side of the right block are farther than one
+    level-3 pixel (8) apart; the level-3 edges routed from them do not touch.  P2: the chain of a long edge. *)
+Definition c01G : grid := mkGrid (mkExtent 0 0 64 64) 2 5.
+Definition c01Neck : list ring :=
+  [[(2,2);(22,2);(22,29);(42,29);(42,2);(62,2);(62,62);(42,62);(42,31);(22,31);(22,62);(2,62)]].
+
+Example C01_partial_far_edges_example :
+  (exists hs, insertPolygon c01G c01Neck = Ok hs /\
+     0 < gres c01G /\ RootCovers c01G /\ (forall L, In L [5; 3; 2]%nat -> (L <= gdeep c01G)%nat /\ ExactMiddle c01G L) /\
+     (forall L idx r c, In L [5; 3; 2]%nat -> nth_error c01Neck idx = Some r ->
+        routedClean c01G (hotLevels c01G hs) L idx r = Ok c -> ProofsKmpLe2.le2 c)) /\
+  In ((2,2),(22,2)) (flat_map ring_edges c01Neck) /\ In ((62,2),(62,62)) (flat_map ring_edges c01Neck) /\
+  (2 * halfSpan c01G 3 == 8)%Q /\
+  farther_than (2 * halfSpan c01G 3) ((2,2),(22,2)) ((62,2),(62,62)) /\
+  segs_touch_b (4,4) (20,4) (60,4) (60,60) = false.
+Proof.
+  split.
+  { destruct (insertPolygon c01G c01Neck) as [hs |] eqn:E; [| vm_compute in E; discriminate].
+    exists hs. split; [reflexivity |]. vm_compute in E. inversion E; subst hs. clear E.
+    split; [reflexivity |]. split; [vm_compute; repeat split; discriminate |]. split.
+    - intros L HL. cbn [In] in HL. destruct HL as [<- | [<- | [<- | []]]];
+        (split; [cbn [gdeep c01G]; repeat constructor | right; reflexivity]).
+    - intros L idx r c HL. revert idx r c. apply class_le2b_sound. cbn [In] in HL.
+      destruct HL as [<- | [<- | [<- | []]]]; vm_compute; reflexivity. }
+  split; [vm_compute; tauto |]. split; [vm_compute; tauto |]. split; [vm_compute; reflexivity |]. split; [| vm_compute; reflexivity].
+  intros u v U0 U1 V0 V1 [X1 [X2 _]]. unfold segPt, co in X1, X2. cbn [fst snd] in X1, X2.
+  assert (E : (2 * halfSpan c01G 3 == 8)%Q) by (vm_compute; reflexivity). rewrite E in X1, X2.
+  change (inject_Z 2) with 2%Q in *. change (inject_Z 22) with 22%Q in *. change (inject_Z 62) with 62%Q in *. lra.
+Qed.
+
+Example C01_partial_same_chain_example :
+  let g := mkGrid (mkExtent 0 0 160000000000 160000000000) 10000000000 4 in
+  let hots := hotLevels g [(7, 5); (5, 6); (6, 6); (5, 5)] in
+  snapClosestPoints g hots (70000000000, 55000000000) (50000000000, 65000000000) 4
+    = [(75000000000, 55000000000); (65000000000, 65000000000); (55000000000, 65000000000)] /\
+  cross_b (75000000000, 55000000000) (65000000000, 65000000000) (65000000000, 65000000000) (55000000000, 65000000000) = false.
+Proof. vm_compute. split; reflexivity. Qed.
